@@ -24,7 +24,27 @@ SIMS = {
 REGNAMES = ["pc", "sp", "sr", "a", "x", "y", "b", "c", "d", "e", "h", "l", "f", "ix", "iy", "hl", "bc", "de", "wp", "st", "cc",
             "r0", "r1", "r2", "r3", "r4", "r5", "r6", "r7", "r8", "r9", "r10", "r11", "r12", "r13", "r14", "r15", "r16", "r26",
             "r31", "$t0", "$sp", "$ra", "$a0", "x1", "x2", "x5", "x31", "t0", "ra", "n", "z", "v", "df", "q", "p", "psr"]
-VALUES = [0, 1, 2, 0x7f, 0x80, 0xff, 0x100, 0x7fff, 0x8000, 0xfffe, 0xffff, 0x10000, 0x7fffffff, 0x80000000, 0xfffffffe, 0xffffffff]
+VALUES = [0, 1, 2, 0x7f, 0x80, 0xff, 0x100, 0x300, 0xff00, 0x7fff, 0x8000, 0xfffe, 0xffff, 0x10000, 0x7fffffff, 0x80000000, 0xfffffffe, 0xffffffff]
+# register names each simulator's set_reg() understands (what the `set` command can reach)
+CPU_REGS = {
+    "msp430": ["pc", "sp", "sr"] + ["r%d" % i for i in range(4, 16)],
+    "1802": ["d", "df", "p", "x", "t", "q", "ie", "n", "i"] + ["r%d" % i for i in range(16)],
+    "6502": ["a", "x", "y", "sr", "sp", "pc"],
+    "65816": ["a", "x", "y", "sr", "pc", "sp", "db", "pb"],
+    "8008": ["a", "b", "c", "d", "e", "h", "l", "sp"],
+    "avr8": ["r%d" % i for i in range(32)] + ["sp", "pc"],
+    "ebpf": ["r%d" % i for i in range(11)],
+    "f100_l": ["a", "cr", "lsp"],
+    "lc3": ["r%d" % i for i in range(8)],
+    "mips": ["$%d" % i for i in range(32)] + ["$t0", "$sp", "$ra", "$a0", "$v0", "$s0"],
+    "riscv": ["x%d" % i for i in range(32)] + ["t0", "sp", "ra", "a0", "s0"],
+    "stm8": ["a", "x", "y", "sp", "pc", "cc"],
+    "tms1000": ["a", "x", "y", "r", "o", "k"],
+    "tms9900": ["r%d" % i for i in range(16)] + ["wp", "st", "pc"],
+    "z80": ["a", "f", "b", "c", "d", "e", "h", "l", "ix", "iy", "sp", "pc", "bc", "de", "hl", "i", "r"],
+}
+# opcode bytes that select a second decode table (the byte after them is stratified too)
+PREFIXES = {"z80": [0xcb, 0xdd, 0xed, 0xfd], "stm8": [0x72, 0x90, 0x91, 0x92], "65816": [], "6502": []}
 
 
 class C15(Engine):
@@ -61,6 +81,14 @@ class C15(Engine):
             first = stratum & 0xff
             if unit == 1:
                 code[0] = first
+                pf = PREFIXES.get(cpu)
+                if pf and rng.chance(1, 3):
+                    # prefixed instruction: the second byte is the stratified one
+                    code[0] = rng.pick(pf)
+                    code[1] = first
+                    if cpu == "z80" and code[0] in (0xdd, 0xfd) and rng.chance(1, 3):
+                        code[1] = 0xcb
+                        code[3] = first
             else:
                 big = progs.cpu_info(cpu)["endian"] == "big"
                 word = rng.below(1 << 16) if stratum >= 256 else ((first << 8) | rng.below(256))
@@ -74,7 +102,8 @@ class C15(Engine):
             wins = [[base, bytes(code).hex()]]
             if rng.chance(1, 2):
                 wins.append([rng.pick([0, top - 8, top - 2, 0x7ffe, 0xfffe, 0x1fe]) & 0xffffffff, rng.bytes(8).hex()])
-            regs = [[rng.pick(REGNAMES), rng.pick(VALUES) if rng.chance(3, 4) else rng.below(1 << 16)] for _ in range(rng.range(0, 6))]
+            rnames = CPU_REGS[cpu] if rng.chance(3, 4) else REGNAMES
+            regs = [[rng.pick(rnames), rng.pick(VALUES) if rng.chance(3, 4) else rng.below(1 << 16)] for _ in range(rng.range(0, 6))]
             pc = base // (unit if cpu in ("avr8", "lc3", "f100_l", "ebpf") else 1)
             if cpu == "ebpf":
                 pc = base // 8
@@ -82,13 +111,30 @@ class C15(Engine):
             variants = [
                 {"kind": 0, "fill": 0, "seed": 1},
                 {"kind": 0, "fill": rng.range(1, 3), "seed": rng.u64()},
-                {"kind": 1, "fill": rng.below(4), "seed": rng.u64(), "hist_steps": rng.below(50), "hist": rng.bytes(64).hex()},
+                {"kind": 1, "fill": rng.below(4), "seed": rng.u64(), "hist_steps": rng.below(50), "hist": self.history(rng, code).hex()},
             ]
             if rng.chance(1, 3) and cpu not in ("riscv", "mips", "ebpf"):
                 variants.append({"kind": 2, "fill": 0, "seed": 1, "usec": rng.pick([1, 1000, 999999, 1000000]), "sig_k": rng.pick([0, 0, 1, 2, 5, 20])})
             cases.append({"cpu": cpu, "wins": wins, "pc": pc, "regs": regs, "pushes": pushes,
                           "prefix": rng.pick([0, 0, 0, 1, 3, 20]), "variants": variants})
         return {"cases": cases}
+
+    @staticmethod
+    def history(rng, code):
+        """Program executed on the same simulator object before the case: random bytes, or
+        siblings of the case's own instruction (same leading bytes, other trailing bytes), which is
+        what a decode cache or a latched prefix would confuse with it."""
+        if rng.chance(1, 2):
+            return rng.bytes(64)
+        out = bytearray()
+        while len(out) < 64:
+            sib = bytearray(code[:rng.pick([2, 3, 4, 4, 6, 8])])
+            keep = rng.pick([1, 1, 2, 3])
+            for i in range(keep, len(sib)):
+                if rng.chance(1, 2):
+                    sib[i] = rng.below(256)
+            out += sib
+        return bytes(out[:64])
 
     def encode(self, cases, ids):
         w = W()
